@@ -990,11 +990,50 @@ fn new_box<'b, E: Elem, B: BumpAllocatorTypedScope<'b>>(ctx: &mut Ctx, bump: &B,
     let try_ = !ctx.panicking_ok(op) || op.a[2] & 1 == 1;
     let xs = fresh_vals(ctx, n);
     // (decoding keeps the meaning of the replay files written before the `init_*` forms existed)
-    let how = if (op.a[0] / 6) % 3 == 2 { 6 + (op.a[0] / 18) % 5 } else { op.a[0] % 6 };
+    let how = if (op.a[0] / 6) % 3 == 2 { 6 + (op.a[0] / 18) % 6 } else { op.a[0] % 6 };
     let r = match how {
         0 => {
             let it = Scripted::<E>::new(xs.clone(), Hint::from(op.a[3]));
             ctx.call(op, false, || if try_ { bump.try_alloc_iter(it).map_err(drop) } else { Ok(bump.alloc_iter(it)) })
+        }
+        11 => {
+            // a single value in a `BumpBox<T>`: `alloc` / `alloc_with` (the closure may unwind), then `into_inner`
+            // (the value leaves the arena and is dropped by the caller), plain drop, or `into_boxed_slice` (lives on as
+            // a one-element slice)
+            ctx.stats.probe("box.single");
+            let x = ctx.fresh_val();
+            let r: Outcome<BumpBox<'b, E>> = if (op.a[3] / 5) % 2 == 0 {
+                let e = E::new(x);
+                ctx.call(op, false, || if try_ { bump.try_alloc(e).map_err(drop) } else { Ok(bump.alloc(e)) })
+            } else {
+                let f = move || {
+                    elem::tick();
+                    E::new(x)
+                };
+                ctx.call(op, false, || if try_ { bump.try_alloc_with(f).map_err(drop) } else { Ok(bump.alloc_with(f)) })
+            };
+            let (b, _, _) = finish_new(ctx, r, vec![x], Promise::default())?;
+            if (ctx.on.c08 || ctx.on.c06) && !E::ZST && b.val() != x {
+                ctx.viol(if ctx.on.c08 { "C08/contents-mismatch" } else { "C06/access-dead" }, format!("alloc / alloc_with returned a box holding {} instead of {x}", b.val()));
+            }
+            return match (op.a[3] / 10) % 3 {
+                0 => {
+                    let v = b.into_inner();
+                    let got = v.val();
+                    let _ = ctx.call(op, false, || Ok(drop(v)));
+                    if (ctx.on.c08 || ctx.on.c06) && !E::ZST && got != x {
+                        ctx.viol(if ctx.on.c08 { "C08/return-value" } else { "C06/access-dead" }, format!("into_inner returned {got} instead of {x}"));
+                    }
+                    ctx.drain_errors();
+                    None
+                }
+                1 => {
+                    let _ = ctx.call(op, false, || Ok(drop(b)));
+                    ctx.drain_errors();
+                    None
+                }
+                _ => Some((b.into_boxed_slice(), vec![x])),
+            };
         }
         6..=10 => {
             // `alloc_uninit_slice` + one of the slice initialisers (src/bump_box/slice_initializer.rs, C06): a panicking
